@@ -38,6 +38,17 @@ pub fn my_bundles(l: &Ledger, wallet: &Pubkey) -> Vec<(Pubkey, Pubkey, Pubkey, [
 pub fn pick_any_range(rng: &mut Rng, l: &Ledger, wk: &Pubkey, pool: &decode::Pool) -> (i32, i32) {
     let sp = pool.tick_spacing as i32;
     let (lo, hi) = pick_range(rng, l, wk, pool);
+    if full_range_only(pool.tick_spacing) && rng.chance(1, 2) {
+        // full-range-only pool: partial ranges on perfectly usable ticks
+        let (lu, hu) = (min_usable(pool.tick_spacing), max_usable(pool.tick_spacing));
+        return match rng.below(5) {
+            0 => (-sp, sp),
+            1 => (lu, 0),
+            2 => (0, hu),
+            3 => (lu + sp, hu),
+            _ => (lu, hu - sp),
+        };
+    }
     match rng.below(14) {
         0 => (lo + 1, hi),                 // off spacing (unless spacing 1)
         1 => (lo, hi - 1),
